@@ -216,7 +216,7 @@ fn result_class(y: &Value) -> &'static str {
 
 /// membership, with a relative tolerance of 1e-9 on float results (IEEE rounding is outside the model: the image of a
 /// finite value set is computed by the same closure as the value, possibly after a period shift or a reordering of operations)
-fn mem_tol(t: &DataType, y: &Value, arg_scale: f64) -> bool {
+fn mem_tol(t: &DataType, y: &Value, arg_scale: f64, root_of_difference: bool) -> bool {
     if mem(t, y) { return true; }
     let yv = match y { Value::Optional(o) => match o.as_ref() { Some(v) => (**v).clone(), None => return false }, v => v.clone() };
     if let Value::Float(f) = &yv {
@@ -226,7 +226,9 @@ fn mem_tol(t: &DataType, y: &Value, arg_scale: f64) -> bool {
         if let DataType::Float(iv) = &tt {
             // plus a few ulps of the largest argument: range reduction of sin / cos and cancellation in sums lose that much
             // (arguments beyond 1e6 are the `/huge` class, judged without this allowance: there the range reduction is simply wrong)
-            let eps = 1e-9 * f.abs().max(1e-300) + 1e-12 + if arg_scale <= 1e6 { 16.0 * f64::EPSILON * arg_scale } else { 0.0 };
+            // a standard deviation is the square root of a difference of nearly equal terms: the k·ε·scale² the variance loses to
+            // cancellation becomes sqrt(k·ε)·scale (std of three copies of 2.9999999999999996 is computed as 4.2e-8, not 0)
+            let eps = 1e-9 * f.abs().max(1e-300) + 1e-12 + if arg_scale <= 1e6 { 16.0 * f64::EPSILON * arg_scale + if root_of_difference { (16.0 * f64::EPSILON).sqrt() * arg_scale } else { 0.0 } } else { 0.0 };
             return iv.iter().any(|[a, b]| f >= a - eps && f <= b + eps);
         }
     }
@@ -242,7 +244,7 @@ fn judge<E1: std::fmt::Display, E2: std::fmt::Display>(out: &mut Outcome, site: 
         Ok(Ok(y)) => {
             out.tag("value-ok");
             match img {
-                Ok(Ok(t)) => { if !mem_tol(&t, &y, arg_scale) { let cls = format!("{}{}{}", result_class(&y), if cls.contains("/huge") || crate::s_dtype::vclass(&y) == "huge" { "/huge" } else { "" }, if cls.ends_with("/wide") { "/wide" } else { "" }); out.fail(&format!("C06/{site}/unsound-image/{cls}"), format!("{what} = {y} but the propagated range of the arguments' type {set} is {t}, which does not contain it")); } }
+                Ok(Ok(t)) => { if !mem_tol(&t, &y, arg_scale, site.contains("/Std")) { let cls = format!("{}{}{}", result_class(&y), if cls.contains("/huge") || crate::s_dtype::vclass(&y) == "huge" { "/huge" } else { "" }, if cls.ends_with("/wide") { "/wide" } else { "" }); out.fail(&format!("C06/{site}/unsound-image/{cls}"), format!("{what} = {y} but the propagated range of the arguments' type {set} is {t}, which does not contain it")); } }
                 Ok(Err(e)) => out.fail(&format!("C06/{site}/image-fails/{}", result_class(&y)), format!("{what} = {y} but range propagation on {set} fails: {e}")),
                 Err(_) => {}
             }
